@@ -58,6 +58,8 @@ def handle (tb : Tables) (c impl : T) : String :=
         ("D78", tb.dirRequiredUnchecked, T.node "obs" [f, f, f], T.node "obs" [t, f, f])
       else if name.startsWith "directive-and-type-share-a-name" then
         ("D79", tb.dirRefTypeFirst, T.node "obs" [t, t, t], T.node "obs" [t, f, f])
+      else if name.startsWith "repeated-union-member" then
+        ("D89", tb.dupMembersAccepted, T.node "obs" [f, f, f], T.node "obs" [t, f, f])
       else if name.startsWith "extend-implied-schema" then
         ("D80", tb.extendSchemaNeedsSchema, T.node "obs" [t, t, t], T.node "obs" [f, t, f])
       else ("", false, T.node "obs" [t, t, t], T.node "obs" [t, t, t])
@@ -66,7 +68,7 @@ def handle (tb : Tables) (c impl : T) : String :=
     else "mismatch spec-bad " ++ want.render
   | _ => "bad-op"
 
-def flags (tb : Tables) : List (String × Bool) := [("D34", tb.assureOnce), ("D76", tb.inputExtendMapOrder), ("D78", tb.dirRequiredUnchecked), ("D79", tb.dirRefTypeFirst),
+def flags (tb : Tables) : List (String × Bool) := [("D34", tb.assureOnce), ("D76", tb.inputExtendMapOrder), ("D78", tb.dirRequiredUnchecked), ("D79", tb.dirRefTypeFirst), ("D89", tb.dupMembersAccepted),
    ("D80", tb.extendSchemaNeedsSchema)]
 
 end Ggql.Driver.C16
